@@ -77,6 +77,7 @@ pub struct Stepper {
     pub tick_err: Option<String>,
     sleep_base: u64,
     custom_dropped_base: u64,
+    queue_overflow_base: u64,
     pub track_custom: bool,
     last_in: usize,
     ticks_since_in: u64,
@@ -140,6 +141,7 @@ impl Stepper {
             tick_err: None,
             sleep_base: kanata_verif_rt::inactive_slept_ns(),
             custom_dropped_base: kanata_keyberon::layout::VERIF_CUSTOM_EVENTS_DROPPED.load(std::sync::atomic::Ordering::Relaxed),
+            queue_overflow_base: kanata_keyberon::layout::VERIF_QUEUE_OVERFLOWS.load(std::sync::atomic::Ordering::Relaxed),
             track_custom: false,
             last_in: usize::MAX,
             ticks_since_in: 0,
@@ -473,6 +475,12 @@ impl Stepper {
     /// (hook H5): the precise cause probe behind the `custom-events-collided` tag
     pub fn custom_events_dropped(&self) -> u64 {
         kanata_keyberon::layout::VERIF_CUSTOM_EVENTS_DROPPED.load(std::sync::atomic::Ordering::Relaxed) - self.custom_dropped_base
+    }
+
+    /// input queue overflows inside keyberon since this stepper was built (hook H7): the precise
+    /// cause probe behind the `queue-overflow` tag
+    pub fn queue_overflows(&self) -> u64 {
+        kanata_keyberon::layout::VERIF_QUEUE_OVERFLOWS.load(std::sync::atomic::Ordering::Relaxed) - self.queue_overflow_base
     }
 
     pub fn finish(&mut self) {
